@@ -146,6 +146,72 @@ func main() {
 			}
 		}
 	}
+	// Resolver family: while the pipelined transaction is alive, another client considers its locks
+	// expired (the clock jumps past the TTL) and reads the keys: the flushed locks are rolled back through
+	// the primary. The transaction goes on (more writes, a last flush, commit): Commit must fail and the
+	// keys flushed afterwards must share that outcome. The resolver event is offered once, at every
+	// decision point at which a lock of the transaction exists (one deviation).
+	{
+		c, w := txnh.Op{Kind: "flush"}, txnh.Op{Kind: "flushwait"}
+		rprogs := []struct {
+			name string
+			ops  []txnh.Op
+		}{
+			{"set(a);flush;wait;set(c)", []txnh.Op{op("set", "a"), c, w, op("set", "c")}},
+			{"set(a);set(b);flush;wait;set(c)", []txnh.Op{op("set", "a"), op("set", "b"), c, w, op("set", "c")}},
+			{"set(b);flush;wait;delete(b);set(a)", []txnh.Op{op("set", "b"), c, w, op("delete", "b"), op("set", "a")}},
+			{"set(a);flush;set(b);flush;wait;set(c)", []txnh.Op{op("set", "a"), c, op("set", "b"), c, w, op("set", "c")}},
+		}
+		for _, lo := range layouts {
+			for _, rp := range rprogs {
+				for _, end := range []string{"commit", "rollback"} {
+					lo, rp, end := lo, rp, end
+					pops := append(append([]txnh.Op{}, rp.ops...), txnh.Op{Kind: end})
+					name := fmt.Sprintf("unistore/%s/pipelined+resolver/%s;%s", lo.Name, rp.name, end)
+					mk := func() *txnh.TxnScenario {
+						done := false
+						sc := &txnh.TxnScenario{ID: name, NewBackend: func() txnh.Backend { return uni.New(lo.Splits) }, Keys: keys,
+							Progs: [][]txnh.Program{{{Mode: txnh.Mode{Pipelined: true}, Ops: pops}}}}
+						sc.SetupFn = func(s *txnh.TxnScenario) { done = false; common.SeedKey(s, "b", "base") }
+						sc.ExtraFn = func(s *txnh.TxnScenario) []sched.Choice {
+							if done || len(s.W.B.Locks()) == 0 {
+								return nil
+							}
+							return []sched.Choice{{Key: "resolver-expires-the-locks", FCost: 1, Fn: func() {
+								done = true
+								sched.Sync(func() {
+									sched.Advance(10 * time.Minute)
+									rc := s.W.AddClient()
+									ts, err := rc.Store.CurrentTimestamp("global")
+									if err != nil {
+										ts = s.W.TSO.NextTS()
+									}
+									s.W.SnapshotRead(rc, ts, s.Keys)
+								})
+							}}}
+						}
+						sc.CheckFn = check
+						return sc
+					}
+					specs[name] = mk
+					jobs = append(jobs, sched.Job{Name: name, Run: func(dl time.Time) sched.Report {
+						sc := mk()
+						x := &sched.Explorer{Sc: sc, B: sched.Bounds{P: 0, F: 1, Horizon: 400, EarlyTimers: false, Deadline: dl}}
+						x.Outcome = func(e *sched.Exec) string {
+							r := ""
+							for _, k := range e.Trace {
+								if strings.Contains(k, "resolver") {
+									r = fmt.Sprintf(" resolver@%d", len(sc.W.Log()))
+								}
+							}
+							return sc.H.Txns[0].Outcome + ":" + sc.H.Txns[0].CommitErr + r
+						}
+						return x.Explore(false)
+					}})
+				}
+			}
+		}
+	}
 	if common.HandleReplay(run, jobs, func(name string) sched.Scenario {
 		if mk, ok := specs[name]; ok {
 			return mk()
@@ -158,6 +224,7 @@ func main() {
 	common.Finish(run, jobs, res, common.FinishOpts{
 		Bounds: map[string]any{"program_depth_steps": depth, "preemptions": P, "flush_faults": F, "keys": keys, "layouts": []string{"1region", "split@b", "split@b,c"}},
 		Rule: "every program of <= depth steps from {set a/b/c, delete b, flush, flush+wait, get b, batch-get a,b,c} with at least one write, ending in commit or rollback, of one pipelined transaction over unistore on three layouts (flushed keys on region borders); each call is a scheduling point, so a running flush completes before or after the following calls (<= P preemptions), thorough: one flush RPC lost / its answer lost. " +
+			"Resolver family: 4 programs x 3 layouts x {commit, rollback} with one resolver event (clock past the TTL, another client reads all keys and rolls the flushed locks back through the primary) at every decision point at which a lock exists. " +
 			"Oracle: every read returns the latest program-order write (else the snapshot value); every buffered mutation reaches the store in exactly one Flush request per generation, generations strictly increase and at most one flush generation is in flight; a flush failure makes commit fail; after commit/rollback and drain every key the transaction flushed has the primary's outcome and no lock of it is left. distinct_nontrivial = distinct (outcome, flush count, read results) classes",
 		Assumptions: []string{
 			"unistore is the store (the in-repo mock implements neither Flush nor BufferBatchGet); flush and resolve-lock concurrency are set to 1",
